@@ -15,7 +15,7 @@ def _root_param(e, params):
     while True:
         if e[0] == "var":
             return e[1] if e[1] in params else None
-        if e[0] in ("cast", "narrow"):
+        if e[0] in ("cast", "narrow", "widen"):
             e = e[3]
         elif e[0] == "bin" and e[1] in ("+", "-"):
             a = _root_param(e[2], params)
